@@ -102,30 +102,152 @@ zero bit, the others the value; the result is keyed by absolute target slot. -/
 def emit (acc : List (Nat × V)) (tStart len : Nat) : List (Nat × V) :=
   (List.range len).filterMap (fun p => (lookup acc p).map (fun v => (p + tStart, v)))
 
-/-- `seriesMerger.merge` for one target field of one series: every input block that has the
-series and data for the field id is decoded over ITS slot range and fed, in input order. -/
-def mergeField (agg : FieldType → V → V → V) (cfg : Cfg) (tStart tEnd : Nat) (ty : FieldType)
-    (s : Nat) (f : Nat) (bs : List (Block V)) : List (Nat × V) :=
+/-! ### `dataScanner` (reader.go): finding a series' entry while the merged ids are visited
+
+A block stores its series in buckets, one per roaring container (high key = `id / 65536`), each
+with its own low-key offsets. `Merge` visits the union of the series ids in ascending order and
+asks every block's scanner for the entry; the scanner only moves forward, one container per call.
+A bucket whose series entries are ALL zero bytes long (single-field metric, every series flushed
+with `FlushField(nil)`) is zero bytes long itself — `flushLevel2SeriesBucket` writes no offsets —
+and `nextContainer` fails on it ("series entries length too short"). -/
+
+/-- one series entry: field id ↦ slot ↦ value -/
+abbrev Entry (V : Type) := List (Nat × List (Nat × V))
+
+def hkOf (s : Nat) : Nat := s / 65536
+
+/-- is the series entry zero bytes long? Only a single-field block writes the field data bare;
+`none` = `FlushField(nil)`. (Multi-field entries always carry their field offsets.) -/
+def zeroLen (fields : List (Nat × FieldType)) (e : Entry V) : Bool :=
+  match fields with
+  | [fm] => (lookup e fm.1).isNone
+  | _ => false
+
+/-- high keys of the block's bitmap, ascending (`seriesIDs.GetHighKeys()`) -/
+def highKeys (b : Block V) : List Nat :=
+  b.series.foldl (fun acc p => insertId (hkOf p.1) acc) []
+
+/-- the series bucket of one container, series ascending -/
+def bucket (b : Block V) (k : Nat) : List (Nat × Entry V) :=
+  b.series.filter (fun p => hkOf p.1 == k)
+
+/-- zero-length bucket -/
+def deadBucket (b : Block V) (k : Nat) : Bool := (bucket b k).all (fun p => zeroLen b.fields p.2)
+
+structure Scanner (V : Type) where
+  /-- high keys not loaded yet (`highKeys[highContainerIdx:]`) -/
+  rest : List Nat
+  /-- `s.highKey` -/
+  hk : Nat
+  /-- series of `s.container` -/
+  cont : List Nat
+  /-- what `s.lowKeyOffsets`/`s.seriesEntries` index: the entries of the last bucket that was
+  loaded SUCCESSFULLY -/
+  ents : List (Entry V)
+
+/-- `nextContainer` on high key `k`: `highKey` and `container` are set first; a zero-length bucket
+is an error unless the scanner tolerates it (then: no entries, move on); `false` = error, the
+container index is not advanced. -/
+def Scanner.next (tol : Bool) (b : Block V) (sc : Scanner V) (k : Nat) (r : List Nat) : Scanner V × Bool :=
+  let sc1 := { sc with hk := k, cont := (bucket b k).map Prod.fst }
+  if deadBucket b k && !tol then (sc1, false)
+  else ({ sc1 with ents := (bucket b k).map Prod.snd, rest := r }, true)
+
+/-- `newDataScanner`: `none` = error ("seriesID bitmap is empty" / first `nextContainer` fails) -/
+def Scanner.new (tol : Bool) (b : Block V) : Option (Scanner V) :=
+  match highKeys b with
+  | [] => none
+  | k :: r =>
+    match Scanner.next tol b { rest := k :: r, hk := 0, cont := [], ents := [] } k r with
+    | (sc, true) => some sc
+    | (_, false) => none
+
+/-- `container.Contains(low)`, `Rank(low)`, `lowKeyOffsets.GetBlock(idx-1, seriesEntries)`:
+the entry at the position of the series in the container, taken from whatever offsets are loaded -/
+def pick : List Nat → List (Entry V) → Nat → Option (Entry V)
+  | [], _, _ => none
+  | c :: cs, [], s => if c = s then none else pick cs [] s
+  | c :: cs, e :: es, s => if c = s then some e else pick cs es s
+
+/-- `dataScanner.scan(highKey, lowSeriesID)` for series `s` -/
+def Scanner.scan (tol : Bool) (b : Block V) (sc : Scanner V) (s : Nat) : Scanner V × Option (Entry V) :=
+  let step : Scanner V × Bool :=
+    if sc.hk < hkOf s then
+      match sc.rest with
+      | [] => (sc, false)
+      | k :: r => Scanner.next tol b sc k r
+    else (sc, true)
+  if !step.2 then (step.1, none)
+  else if hkOf s ≠ step.1.hk then (step.1, none)
+  else (step.1, pick step.1.cont step.1.ents s)
+
+/-- the entries the scanner of block `b` returns while `ids` are visited in order -/
+def scanLoop (tol : Bool) (b : Block V) : Scanner V → List Nat → List (Nat × Option (Entry V))
+  | _, [] => []
+  | sc, s :: r => let x := Scanner.scan tol b sc s; (s, x.2) :: scanLoop tol b x.1 r
+
+def scanAll (tol : Bool) (b : Block V) (ids : List Nat) : List (Nat × Option (Entry V)) :=
+  match Scanner.new tol b with
+  | none => []
+  | some sc => scanLoop tol b sc ids
+
+/-- `scanner.scan` + `fieldReader.Reset` + `GetFieldData(fieldID)` as the merge loop sees it -/
+def scanData (tol : Bool) (ids : List Nat) (b : Block V) (s f : Nat) : Option (List (Nat × V)) :=
+  match lookup (scanAll tol b ids) s with
+  | some (some e) =>
+    match lookup b.fields f with
+    | none => none
+    | some _ => lookup e f
+  | _ => none
+
+/-- does `merger.prepare` fail on this input (`newDataScanner` error)? -/
+def mergeFails (tol : Bool) (bs : List (Block V)) : Bool :=
+  bs.any (fun b => (Scanner.new tol b).isNone)
+
+/-- `seriesMerger.merge` for one target field of one series: every input block for which the
+scanner/field reader delivers data is decoded over ITS slot range and fed, in input order. -/
+def mergeFieldBy (agg : FieldType → V → V → V) (cfg : Cfg) (tStart tEnd : Nat) (ty : FieldType)
+    (data : Block V → Option (List (Nat × V))) (bs : List (Block V)) : List (Nat × V) :=
   let len := tEnd + 1 - tStart
   let acc := bs.foldl (fun acc b =>
-    match b.fieldData s f with
+    match data b with
     | none => acc
     | some vals => feed (agg ty) cfg tStart len vals acc b.start (b.stop + 1 - b.start)) []
   emit acc tStart len
 
+/-- with the data a correct scanner finds (`Block.fieldData`) -/
+def mergeField (agg : FieldType → V → V → V) (cfg : Cfg) (tStart tEnd : Nat) (ty : FieldType)
+    (s : Nat) (f : Nat) (bs : List (Block V)) : List (Nat × V) :=
+  mergeFieldBy agg cfg tStart tEnd ty (fun b => b.fieldData s f) bs
+
 /-- `merger.Merge`: union of the series ids ascending, target fields sorted by id, target range;
-every series gets one entry per target field (possibly without any slot). -/
-def mergeBlocksWith (cfg : Cfg) (agg : FieldType → V → V → V) (bs : List (Block V)) : Block V :=
+every series gets one entry per target field (possibly without any slot). `data s f b` is the
+field data found for series `s`, field `f` in block `b`. -/
+def mergeBlocksBy (data : Nat → Nat → Block V → Option (List (Nat × V))) (cfg : Cfg)
+    (agg : FieldType → V → V → V) (bs : List (Block V)) : Block V :=
   let p := prepare bs
   let fields := sortFields p.fields
   let tS := cfg.mapSlot p.srcStart
   let tE := cfg.mapSlot p.srcEnd
   { fields := fields, start := tS, stop := tE,
     series := (unionIds bs).map (fun s =>
-      (s, fields.map (fun fm => (fm.1, mergeField agg cfg tS tE fm.2 s fm.1 bs)))) }
+      (s, fields.map (fun fm => (fm.1, mergeFieldBy agg cfg tS tE fm.2 (data s fm.1) bs)))) }
+
+/-- the merge with a scanner that finds every entry (specification level) -/
+def mergeBlocksIdeal (cfg : Cfg) (agg : FieldType → V → V → V) (bs : List (Block V)) : Block V :=
+  mergeBlocksBy (fun s f b => b.fieldData s f) cfg agg bs
+
+/-- the merge as the code performs it: entries come from `dataScanner`s. `tol`: does
+`nextContainer` accept a zero-length series bucket? (generated fact) -/
+def mergeBlocksWith (tol : Bool) (cfg : Cfg) (agg : FieldType → V → V → V) (bs : List (Block V)) : Block V :=
+  mergeBlocksBy (fun s f b => scanData tol (unionIds bs) b s f) cfg agg bs
 
 /-- compaction merge (`m.rollup == nil`) -/
-def mergeBlocks (agg : FieldType → V → V → V) (bs : List (Block V)) : Block V :=
-  mergeBlocksWith compactCfg agg bs
+def mergeBlocks (tol : Bool) (agg : FieldType → V → V → V) (bs : List (Block V)) : Block V :=
+  mergeBlocksWith tol compactCfg agg bs
+
+/-- compaction merge, specification level -/
+def mergeBlocksI (agg : FieldType → V → V → V) (bs : List (Block V)) : Block V :=
+  mergeBlocksIdeal compactCfg agg bs
 
 end LinVerif.Merge
